@@ -4,7 +4,7 @@ and record which are caught:  tools/run_seeds.py [names...]   -> /verif/seeded/r
 import json, os, subprocess, sys, time
 V = "/verif"
 names = sys.argv[1:] or sorted(d for d in os.listdir(V + "/seeded") if os.path.isdir(os.path.join(V, "seeded", d)))
-path = V + "/seeded/results.json"
+path = os.environ.get("PV_RESULTS", V + "/seeded/results.json")
 results = json.load(open(path)) if os.path.exists(path) else {}
 for name in names:
     meta = json.load(open(os.path.join(V, "seeded", name, "meta.json")))
